@@ -154,7 +154,7 @@ class WorldAdapter:
             elif name == 'DeleteImmediate':
                 w.delete_entity(pyid(args[0]), immediate=True)
             elif name == 'AddProcessor':
-                if args[1] == 'none':
+                if args[1] == 999:
                     w.add_processor(env.procs[args[0]])
                 else:
                     w.add_processor(env.procs[args[0]], args[1])
